@@ -120,8 +120,22 @@ let check inp obs =
       | [_; ev; acc] -> (parse_events ev, parse_acc acc)
       | _ -> fail "bad observation %s" o) proc_obs in
     let wf = steps_wf_b stepl in
-    let hist = history_ok_b [] stepl parsed in
-    let prop = (not obs_panic) && ((not wf) || hist) in
+    (* the longest prefix of the history inside the theorem's precondition (C32_history_safe
+       applies to it: a prefix of a history is a history): up to the first Process step that is
+       not well-formed *)
+    let rec wf_prefix = function
+      | [] -> []
+      | s :: r -> if steps_wf_b [s] then s :: wf_prefix r else [] in
+    let prefix = wf_prefix stepl in
+    let hist = history_ok_b [] prefix parsed in
+    (* rejection (C32_reject_forged_or_unlinked has no precondition): on every Process step *)
+    let rec rejections steps outs = match steps, outs with
+      | SProcess rs :: sr, (_, acc) :: orr -> rejections_ok_b rs acc && rejections sr orr
+      | _ :: sr, _ -> rejections sr outs
+      | [], _ -> true in
+    let rej = rejections stepl parsed in
+    let prop = (not obs_panic) && hist && rej in
+    let nproc l = List.length (List.filter (function SProcess _ -> true | _ -> false) l) in
     let all_events = List.concat (List.map fst parsed) in
     let nimports = List.length (List.filter (function EImport _ -> true | _ -> false) all_events) in
     let has f = List.exists f all_events in
@@ -129,6 +143,19 @@ let check inp obs =
       | SProcess rs -> List.exists must_reject rs | _ -> false) stepl in
     let tags = String.concat "," (List.filter (fun x -> x <> "") [
       (if wf then "wf-history" else "outside-precondition");
+      (if (not wf) && nproc prefix > 0 then "wf-prefix-checked" else "");
+      (if has (function ESkip _ -> true | _ -> false)
+          && List.exists (fun (evs, _) ->
+               let rec again seen = function
+                 | [] -> false
+                 | EImport s :: r -> again (s :: seen) r
+                 | ESkip s :: r -> List.mem s seen || again seen r
+                 | _ :: r -> again seen r in again [] evs) parsed
+       then "handed-again-in-call" else "");
+      (if List.exists (fun s -> match s with
+           | SProcess rs -> List.exists (fun r ->
+               not (req_field r.r_req f_header) && List.length r.r_resp >= 3) rs
+           | _ -> false) stepl then "body-batch" else "");
       (if obs_panic then "panic" else "");
       (if nimports > 0 then "imports" else "no-import");
       (if has (function ESkip _ -> true | _ -> false) then "skip-known" else "");
@@ -142,7 +169,8 @@ let check inp obs =
     { prop_ok = prop; model_eq = (m = obs); nontrivial = nimports > 0; finding = "-"; tags;
       detail = if prop && m = obs then "" else
           Printf.sprintf "%s model=%s" (if prop then "" else if obs_panic then "Process panicked"
-                                        else "importer handed an orphan/duplicate or a forged/unlinked response accepted")
+                                        else if not rej then "a forged/unlinked response was accepted"
+                                        else "the importer was handed a block whose parent is unknown, or a block twice")
             (if String.length m > 600 then String.sub m 0 600 ^ "..." else m) }
   | ["imp"; hdrs; known; fin; blocks] ->
     (* the environment model against the real blockImporter *)
@@ -164,4 +192,59 @@ let check inp obs =
       detail = if m = obs then "" else "model=" ^ m }
   | _ -> fail "C32: bad input %s" inp
 
-let () = run_driver check
+(* ---- vm_compute cross-check (bin/check: vm_sample): one Gallina boolean per case, built from
+   the parsed input and the parsed observation; coq/C32/VmCheck.v evaluates the model inside Coq *)
+let cn = coq_n
+let clist f l = "[" ^ String.concat "; " (List.map f l) ^ "]"
+let cbool b = if b then "true" else "false"
+let cpair (a, b) = "(" ^ cn a ^ ", " ^ cn b ^ ")"
+let chdr h = Printf.sprintf "(mkhdr %s %s %s)" (cn h.h_hash) (cn h.h_parent) (cn h.h_number)
+let cbd b = Printf.sprintf "(mkbd %s %s %s %s)" (cn b.d_hash)
+    (match b.d_header with None -> "None" | Some h -> "(Some " ^ chdr h ^ ")") (cbool b.d_body) (cbool b.d_just)
+let cres r = Printf.sprintf "(mkres %s %s (mkreq %s %s) %s)" (cn r.r_who) (cbool r.r_completed)
+    (cn r.r_req.q_fields) (cn r.r_req.q_dir) (clist cbd r.r_resp)
+let cstep = function
+  | SAnnounce h -> "SAnnounce " ^ chdr h
+  | SKnown h -> "SKnown " ^ cn h
+  | SFinal n -> "SFinal " ^ cn n
+  | SProcess rs -> "SProcess " ^ clist cres rs
+let ev_code = function
+  | EImport s -> (ni 0, s) | ESkip s -> (ni 1, s) | EOrphan s -> (ni 2, s) | EDup s -> (ni 3, s)
+  | ENothing s -> (ni 4, s) | EFinal s -> (ni 5, s)
+
+let coq inp obs =
+  try
+    match split_ws inp with
+    | [hdrs; bad; steps] ->
+      let hd = parse_headers hdrs in
+      let badl = if bad = "-" then [] else List.map n_of_hex (split ',' bad) in
+      let stepl = parse_steps hd steps in
+      let names s = if s = "-" then [] else List.map hash_of_name (split ',' s) in
+      let pobs o = match split ';' o with
+        | [status; ev; reps; bans; _; dis; q; acc] when status <> "panic" && acc <> "!" ->
+          let reps = if reps = "-" then [] else List.map (fun e -> match split '.' e with
+            | [w; c] -> (n_of_hex w, n_of_hex c) | _ -> raise Exit) (split ',' reps) in
+          let dis = if dis = "-" then [] else
+              List.map (fun f -> List.map hash_of_name (split '.' f)) (split '+' dis) in
+          if q <> "-" && List.mem "bad" (split ',' q) then raise Exit;
+          Printf.sprintf "mkpobs %s %s %s %s %s %s %s" (cbool (status = "err"))
+            (clist cpair (List.map ev_code (parse_events ev))) (clist cpair reps)
+            (clist cn (if bans = "-" then [] else List.map n_of_hex (split ',' bans)))
+            (clist (clist cn) dis) (clist cn (names q)) (clist cbool (parse_acc acc))
+        | _ -> raise Exit in
+      let exp = List.map pobs (List.filter (fun o -> o <> ".") (split '|' obs)) in
+      Some (Printf.sprintf "vm_history %s %s %s" (clist cn badl) (clist cstep stepl)
+              ("[" ^ String.concat "; " exp ^ "]"))
+    | ["imp"; hdrs; known; fin; blocks] ->
+      let hd = parse_headers hdrs in
+      let kn = N0 :: (if known = "-" then [] else List.map n_of_hex (split ',' known)) in
+      (match split_ws obs with
+       | [evs; st] ->
+         Some (Printf.sprintf "vm_import %s %s %s %s %s" (clist cn kn) (cn (n_of_hex fin))
+                 (clist cbd (parse_blocks hd blocks))
+                 (clist cpair (List.map ev_code (parse_events evs))) (cbool (st = "err")))
+       | _ -> None)
+    | _ -> None
+  with _ -> None
+
+let () = run_driver ~coq check
